@@ -115,6 +115,67 @@ def coq_list(xs):
     return "[" + "; ".join(str(x) for x in xs) + "]"
 
 
+def async_debut_part(rep, rng, quick):
+    """the generated `debut()` of the async runtimes (their expansions cannot be compiled without the runtime crates, the function
+    itself only needs std): sequential calls and concurrent calls, also with a clock that lets two readers meet.  Oracle only:
+    stamps pairwise distinct and later than every stamp issued before."""
+    libs = ("tokio", "async_std", "smol")
+    jobs = [("actor", ['lib = "%s", debut' % l, dh.ITEM]) for l in libs] + [("family", ['lib = "tokio", debut, actor(first_name = "U"), actor(first_name = "V")', dh.ITEM])]
+    res = hook.run_batch(jobs, tag="c13a")
+    mods = []
+    for (kind, (attr, _)), (cls, f) in zip(jobs, res):
+        txt = dh.debut_fn_text(f[0]) if cls == "TOKENS" else None
+        if txt is None:
+            rep.oblige(False)
+            rep.violation("async_debut_" + attr[:20], {"what": "no `fn debut` found in the expansion", "attr": attr, "class": cls}, found=False)
+            continue
+        mods.append(("a%d" % len(mods), txt, True, "DEBUT-ONLY", attr))
+    if not mods:
+        return
+    try:
+        binp = dh.build([m[:4] + ("",) for m in mods])
+    except dh.CompileError as e:
+        rep.oblige(False)
+        rep.violation("async_debut_compile", {"what": "the generated debut() of an async runtime does not compile next to the mock clock", "rustc": str(e)[-2000:]}, found=False)
+        return
+    runs = []
+    for name, txt, _, _, attr in mods:
+        lines, info = [], []
+        for k in range(6 if quick else 40):
+            base = 1000 * (k + 1)
+            lines.append("call %d %d" % (base + 500, base))
+            info.append(("call", [base]))
+            nthr = rng.choice((2, 2, 3))
+            rd = [base + rng.choice((0, 0, 0, 1, -1)) for _ in range(rng.randint(2, 6))]
+            mode = "concr" if k % 2 == 0 else "conc"
+            lines.append("%s %d %d %s" % (mode, nthr, base + 500, ",".join(map(str, rd))))
+            info.append((mode, rd, nthr))
+        runs.append((name, attr, lines, info))
+    outs = dh.run_many(binp, [(r[0], r[2]) for r in runs], timeout=180)
+    for (name, attr, lines, info), (out, err) in zip(runs, outs):
+        if err:
+            rep.notes.append("async debut harness %s: %s" % (name, err))
+            continue
+        prev = 0
+        for line_in, inf, line in zip(lines, info, out):
+            rep.evaluations += 1
+            if inf[0] == "call":
+                st = int(line.split()[0])
+                ok = rep.oblige(st > prev)
+                vs = [st]
+            else:
+                vs = [int(a.split(":")[1]) for a in line.split(",") if a]
+                ok = rep.oblige(len(set(vs)) == len(vs) and min(vs) > prev)
+                rep.count("async_debut", inf[0])
+                rep.nontrivial.add(("async-debut", attr[:14], inf[0], inf[2]))
+            if not ok:
+                rep.violation("async_debut_%s_%s" % (name, inf[0]), {
+                    "what": "debut() of `%s` issued stamps %s after the earlier maximum %d: stamps must be pairwise distinct and later than every earlier one" % (attr, vs, prev),
+                    "attr": attr, "item": dh.ITEM, "scenario": line_in, "meaning": "<mode> <threads> <clock afterwards> <clock readings>; concr = the mock clock lets the first two readers meet (bounded wait)",
+                    "observed": line}, found=True)
+            prev = max([prev] + vs)
+
+
 def run(rep):
     rng = random.Random(rep.seed)
     rep.extra["rule"] = RULE
@@ -245,6 +306,7 @@ def run(rep):
         rep.violation("harness_compile", {"what": "the real expansion (debut) no longer compiles next to the mock clock: runtime correspondence cannot be established",
                                           "rustc": str(e)[-2500:], "item": dh.ITEM}, found=False)
         binp = None
+    async_debut_part(rep, rng, quick)
     failing = []       # oracle failures on the real code
     drift = []         # model != real while the oracle holds
     if binp is not None:
